@@ -116,7 +116,8 @@ Fixpoint keys_unique (v : jv) : bool :=
 (* bag data that survives bag-native and make-bag of the result *)
 Fixpoint native_ok (v : jv) : bool :=
   match v with
-  | JNull | JBool true | JInt _ | JDec _ | JStr _ => true
+  | JNull | JBool true | JDec _ | JStr _ => true
+  | JInt z => (-9223372036854775808 <=? z)%Z && (z <=? 9223372036854775807)%Z     (* an int64 *)
   | JBool false => false                (* comes back as null *)
   | JBig _ => false                     (* json.Number has no Lisp counterpart: nil *)
   | JArr [] => false                    (* the empty list is nil *)
